@@ -37,3 +37,23 @@ Theorem c06_replace_keeps_uncovered : forall text m from, goodz from (Z.of_nat (
   splicez text [] from m = uncovered m from (skipn (Z.to_nat from) text).
 Proof. exact splice_uncovered. Qed.
 Print Assumptions c06_replace_keeps_uncovered.
+
+(* ---------------------------------------------------------------------------------------------------------------
+   End to end on the executable model, for every pattern set and text (byte strings):
+   [built ps T]: T is the table after Insert(p) for every p of ps and BuildFailureLinks;
+   [occurrence ps text s e]: text[s:e] is a non-empty pattern of ps, s and e rune boundaries of the text. *)
+From V Require Import Proofs.TrieRunes Proofs.TrieOcc Proofs.TrieTop Proofs.TrieReplaceTop.
+
+(* Replace never panics (no out-of-range slice, no fuel exhaustion in find or mergeScopes): it returns the text with each
+   merged region replaced by one copy of repl; the merged regions are disjoint, increasing, non-empty, inside the text,
+   cover exactly the bytes covered by occurrences, each contains an occurrence, and every occurrence lies in one *)
+Theorem c06_replace_end_to_end : forall ps text repl T, Forall is_bytes ps -> is_bytes text -> built ps T ->
+  exists sc m, find T text = Ok sc /\ (forall s e, In (s, e) sc <-> occurrence ps text s e) /\
+    merge_scopes sc = Some m /\
+    replace T text repl = Ok (splicez text repl 0 m) /\
+    goodz 0 (Z.of_nat (length text)) m /\
+    (forall i, covered m i <-> covered sc i) /\
+    (forall o, In o sc -> exists x, In x m /\ inside o x) /\
+    (forall x, In x m -> exists o, In o sc /\ inside o x).
+Proof. exact replace_correct. Qed.
+Print Assumptions c06_replace_end_to_end.
